@@ -126,6 +126,33 @@ def judge_slice(case, rec):
                         "%s[%d,%d] (%s) = %r; sum %r over base-cell total %r gives %r" % (
                             name, i, j, block, g, s, tot, want),
                         "%s:%s" % (name, block))
+    # --- defining relation on the PUBLIC sums of the same run (encoder-independent): the
+    # --- total of a displayed row / column is the NaN-skipping total of its sums over base
+    # --- columns / rows - for base vectors and inserted subtotals alike
+    SM = np.asarray(part.sums, dtype=float)
+    with np.errstate(divide="ignore", invalid="ignore"):
+        rt = np.nansum(SM[:, base_c], axis=1) if base_c else np.zeros(nr)
+        ct = np.nansum(SM[base_r, :], axis=0) if base_r else np.zeros(nc)
+        tt = np.nansum(SM[np.ix_(base_r, base_c)]) if base_r and base_c else 0.0
+        want_rel = {"row_share_sum": SM / rt[:, None], "column_share_sum": SM / ct[None, :],
+                    "total_share_sum": SM / tt}
+    for i, r_ in enumerate(rspecs):
+        for j, c_ in enumerate(cspecs):
+            if orc.is_diff(r_) or orc.is_diff(c_):
+                continue
+            for name in want_rel:
+                w_ = want_rel[name][i, j]
+                g = got[name][i, j]
+                rec.compared()
+                if np.isinf(w_) and np.isinf(g):
+                    continue
+                if not close(g, w_):
+                    block = ("inserted-row" if r_[0] == "sub" else "base-row") + "/" + \
+                        ("inserted-col" if c_[0] == "sub" else "base-col")
+                    rec.violation(
+                        "%s[%d,%d] (%s) = %r but its public sum %r over the NaN-skipping "
+                        "base-cell total gives %r" % (name, i, j, block, g, SM[i, j], w_),
+                        "relation-%s:%s" % (name, block))
     # --- base-cell shares add up to one along their direction
     for i in base_r:
         vals = [got["row_share_sum"][i, j] for j in base_c]
